@@ -30,4 +30,50 @@ example :
   refine ⟨_, ⟨[.pull, .wcheck, .put, .get, .pull, .wcheck, .put, .pull, .wcheck], rfl⟩, ?_⟩
   decide
 
+/-- the filling state: the consumer holds element 0 (taken, not yet yielded), `k` elements queued -/
+def fillState (k : Nat) : State :=
+  { pulled := 1 + k, wpc := .idle, queue := (List.range k).map (fun j => QItem.item (j + 1)),
+    flag := false, cpc := .got 0, out := [], raised := false, ended := false, closeReq := false }
+
+theorem fill_reachable (c : Cfg) (k : Nat) (hk : k ≤ c.maxsize) (hm : 1 ≤ c.maxsize)
+    (hn : 1 + k ≤ c.n) : Reachable c (fillState k) := by
+  induction k with
+  | zero =>
+    refine ⟨[.pull, .wcheck, .put, .get], ?_⟩
+    have h0 : 0 < c.n := by omega
+    have h1 : 0 < c.maxsize := by omega
+    simp [Core.run, step, init, fillState, h0, h1]
+  | succ k ih =>
+    have hr := ih (by omega) (by omega)
+    have h1 : Core.Reach (step c) init
+        { fillState k with wpc := .check (1 + k), pulled := 1 + k + 1 } :=
+      Core.Reach.tail hr (a := .pull) (by
+        have : 1 + k < c.n := by omega
+        simp [step, fillState, this])
+    have h2 : Core.Reach (step c) init
+        { fillState k with wpc := .hold (1 + k), pulled := 1 + k + 1 } :=
+      Core.Reach.tail h1 (a := .wcheck) (by simp [step, fillState])
+    have h3 := Core.Reach.tail h2 (a := .put) (s2 := fillState (k + 1)) (by
+      have : k < c.maxsize := by omega
+      simp [step, fillState, this, List.range_succ]
+      omega)
+    exact h3
+
+/-- **C08, tightness for every `maxsize ≥ 1`**: the bound `maxsize + 2` of `C08_buffer_lookahead`
+    is attained in every configuration whose source is long enough — it cannot be lowered for
+    any buffer size, not only for the sample of the `example` above. -/
+theorem C08_buffer_lookahead_attained (c : Cfg) (hm : 1 ≤ c.maxsize) (hn : c.maxsize + 2 ≤ c.n) :
+    ∃ s, Reachable c s ∧ s.pulled - s.out.length = c.maxsize + 2 := by
+  have hr := fill_reachable c c.maxsize (Nat.le_refl _) hm (by omega)
+  have h1 : Core.Reach (step c) init
+      { fillState c.maxsize with wpc := .check (1 + c.maxsize), pulled := 1 + c.maxsize + 1 } :=
+    Core.Reach.tail hr (a := .pull) (by
+      have : 1 + c.maxsize < c.n := by omega
+      simp [step, fillState, this])
+  have h2 : Core.Reach (step c) init
+      { fillState c.maxsize with wpc := .hold (1 + c.maxsize), pulled := 1 + c.maxsize + 1 } :=
+    Core.Reach.tail h1 (a := .wcheck) (by simp [step, fillState])
+  refine ⟨_, h2, ?_⟩
+  simp [fillState]; omega
+
 end Buffer
